@@ -19,6 +19,8 @@ VERIF = os.path.dirname(os.path.dirname(os.path.abspath(__file__)))
 REPO = os.environ.get("VERIF_REPO", "/repo")
 SCRATCH_ROOT = os.environ.get("VERIF_SCRATCH", "/var/tmp")
 MOD_LINE = "#[cfg(any(kani, verif_replay))] pub mod verif;\n"
+# harnesses carry up to ~30 kani::stub attributes; rustc's default macro recursion limit (128) is too small
+LIMIT_LINE = '#![cfg_attr(kani, recursion_limit = "1024")]\n'
 ENV = dict(os.environ, CARGO_NET_OFFLINE="true", CARGO_TERM_COLOR="never")
 
 sys.path.insert(0, os.path.join(VERIF, "vlib"))
@@ -82,6 +84,8 @@ class Scratch:
             if not s.endswith("\n"):
                 s += "\n"
             s += MOD_LINE
+            if "recursion_limit" not in s:
+                s = LIMIT_LINE + s
             open(lib, "w").write(s)
         dst = os.path.join(self.crate, "src", "verif")
         if os.path.exists(dst):
@@ -123,7 +127,7 @@ class BuildError(Exception):
         self.out = out
 
 
-CHECK_RE = re.compile(r"^Check (\d+): (\S+)\n\t - Status: (\S+)\n\t - Description: \"(.*)\"\n\t - Location: (.*)$", re.M)
+CHECK_RE = re.compile(r"^Check (\d+): (.+)\n\t - Status: (\S+)\n\t - Description: \"(.*)\"\n\t - Location: (.*)$", re.M)
 
 
 def parse_result(text):
@@ -132,6 +136,11 @@ def parse_result(text):
     tm = re.search(r"Verification Time: ([0-9.]+)s", text)
     fails = [m.group(0) for m in CHECK_RE.finditer(text) if m.group(3) == "FAILURE"]
     i = text.find("SUMMARY:")
+    n_declared = len(re.findall(r"^Check \d+: ", text, re.M))
+    if n_declared != len(checks):
+        # never trust a partially parsed result
+        return {"checks": checks, "time": float(tm.group(1)) if tm else None, "status": "no-result",
+                "raw_tail": "parser saw %d of %d checks\n" % (len(checks), n_declared) + text[-1500:]}
     res = {"checks": checks, "time": float(tm.group(1)) if tm else None,
            "raw_tail": "\n\n".join(fails[:12]) + "\n\n" + (text[i:] if i >= 0 else text[-1500:])}
     if "CBMC timed out" in text:
@@ -179,6 +188,21 @@ def classify(ob, res):
     return "discharged", None
 
 
+def run_pg(cmd, cwd):
+    """run a command in its own process group and kill the whole group afterwards: when Kani's
+    harness time-out kills cbmc, the external solver (cvc5/kissat) is orphaned and would keep running"""
+    import signal
+    p = subprocess.Popen(cmd, cwd=cwd, env=ENV, stdout=subprocess.PIPE, stderr=subprocess.STDOUT, text=True, start_new_session=True)
+    try:
+        out, _ = p.communicate()
+    finally:
+        try:
+            os.killpg(p.pid, signal.SIGKILL)
+        except (ProcessLookupError, PermissionError):
+            pass
+    return p.returncode, out
+
+
 def kani_cmd(sc, feat, harnesses, checks, jobs, timeout, extra=()):
     cmd = ["cargo", "kani", "-Z", "function-contracts", "-Z", "stubbing", "-Z", "unstable-options"]
     cmd += FEATURES[feat]
@@ -207,10 +231,10 @@ def run_group(sc, feat, checks, obs, jobs):
         names = [ob["name"] for ob in group]
         cmd = kani_cmd(sc, feat, names, checks, min(jobs, len(names)), to)
         t0 = time.time()
-        p = subprocess.run(cmd, cwd=sc.crate, env=ENV, stdout=subprocess.PIPE, stderr=subprocess.STDOUT, text=True)
+        rc, pout = run_pg(cmd, sc.crate)
         wall = time.time() - t0
-        if "error: could not compile" in p.stdout or re.search(r"^error(\[E\d+\])?:", p.stdout, re.M) and "Checking harness" not in p.stdout:
-            raise BuildError("overlay does not compile against this tree (lost anchor or unsupported construct)", p.stdout)
+        if "error: could not compile" in pout or re.search(r"^error(\[E\d+\])?:", pout, re.M) and "Checking harness" not in pout:
+            raise BuildError("overlay does not compile against this tree (lost anchor or unsupported construct)", pout)
         for ob in group:
             f = os.path.join(outdir, "verif::" + ob["name"])
             if os.path.exists(f):
@@ -219,8 +243,8 @@ def run_group(sc, feat, checks, obs, jobs):
             else:
                 txt = ""
             res = parse_result(txt)
-            if res["status"] == "no-result" and ("no harnesses matched" in p.stdout):
-                res["raw_tail"] = p.stdout[-2000:]
+            if res["status"] == "no-result":
+                res["raw_tail"] = pout[-2000:]
             res["group_wall"] = wall
             results[ob["name"]] = res
     return results
@@ -240,8 +264,7 @@ def concrete_playback(sc, ob):
             "--target-dir", os.path.join(sc.dir, "kt-" + ob.get("features", "default"))]
     if ob.get("checks", "nooverflow") == "nooverflow":
         cmd += ["--no-overflow-checks"]
-    p = subprocess.run(cmd, cwd=sc.crate, env=ENV, stdout=subprocess.PIPE, stderr=subprocess.STDOUT, text=True)
-    out = p.stdout
+    rc, out = run_pg(cmd, sc.crate)
     blocks = out.split("Concrete playback unit test for")[1:]
     # first test that witnesses a failed check (not a cover)
     blocks = [b for b in blocks if "Check for `cover`" not in b] or []
